@@ -63,9 +63,9 @@ CLAIMED = {
         text="Only the cardinality clause of C09 ('take(n) returns a set of exactly n processors, or nothing') is decided, for all five region policies, over ALL usize values (no unrolling; lengths <= 2^32): "
              "policy Any - from the length test to the collected vector: None iff fewer than n candidates, otherwise exactly n; "
              "policy PreferSame - one iteration of `while processors.len() < count` from an ARBITRARY state with processors.len() <= count and a visited region of arbitrary size >= 1: no panic, and the loop either exits with processors.len() == count, returns None (regions exhausted), or re-enters its head with processors.len() <= count (an inductive step: covers any number of regions); "
-             "policy RequireSame - the region filter closure keeps a region iff it has at least n candidates; policy PreferDifferent - one step of the outer loop head and one step of the inner for-loop from arbitrary states (exit only at len == count, break exactly at count, None only when candidates are exhausted); policy RequireDifferent - None iff fewer than n regions, else n elements; PreferSame's region sort key = min(region size, n); the resource-quota guard of take(n) (None iff a limit exists and n exceeds it) and one inductive step of the quota cut loop used by take_all (removes exactly one processor while len > limit, leaves with len <= limit, no panic; unchanged without a limit). Containers and rand sampling are replaced by their documented length contracts (evidence: assumptions). "
+             "policy RequireSame - the region filter closure keeps a region iff it has at least n candidates; policy PreferDifferent - one step of the outer loop head and one step of the inner for-loop from arbitrary states (exit only at len == count, break exactly at count, None only when candidates are exhausted); policy RequireDifferent - None iff fewer than n regions, else n elements; PreferSame's region sort key = min(region size, n); the resource-quota guard of take(n) (None iff a limit exists and n exceeds it) and one inductive step of the quota cut loop used by take_all (removes exactly one processor while len > limit, leaves with len <= limit, no panic; unchanged without a limit); take_all: on every path, for all five policies, the returned set is built from the quota-cut vector (path property over its loop-free MIR). Containers and rand sampling are replaced by their documented length contracts (evidence: assumptions). "
              "This check found a genuine defect (PreferSame took min(n, region) from every further region: regions of 2 and 2 candidates with n = 3 gave 4 processors), reproduced through the public API on fake hardware and repaired by /repo commit d0196c3 (known_findings.json, fixed). "
-             "Membership, filters, exclusions, efficiency classes, distinctness, the region constraints themselves, how take_all builds its set per policy (and that it applies the cut on every arm) and the float quota conversion are outside the claim (foldhash maps, pdqsort, VecDeque, rejection sampling and Arc-carrying records do not fit: probe P12). Complete over the integer values, partial over the property.",
+             "Membership, filters, exclusions, efficiency classes, distinctness, the region constraints themselves, which processors take_all selects per policy and the float quota conversion are outside the claim (foldhash maps, pdqsort, VecDeque, rejection sampling and Arc-carrying records do not fit: probe P12). Complete over the integer values, partial over the property.",
         note="Trusts rustc's MIR, the mirsym semantic table and the length contracts of Vec / VecDeque / HashMap / rand::sample stated in the evidence, z3. A thin slice of C09: cardinality bookkeeping only.",
     ),
     "C11": dict(
